@@ -20,6 +20,7 @@ mod c18;
 mod c19;
 mod c20;
 mod dist;
+mod x01;
 
 fn main() {
     common::silence_panics();
@@ -48,6 +49,7 @@ fn main() {
                 "C16" => c16::replay(cases, verd),
                 "C17" => c17::replay(cases, verd),
                 "C20" => c20::replay(cases, verd),
+                "X01" => x01::replay(cases, verd),
                 "C18" => c18::replay(cases, verd, args.get(5).and_then(|s| s.parse().ok()).unwrap_or(2)),
                 _ => {
                     eprintln!("no replay table for {}", prop);
